@@ -42,7 +42,7 @@ var c01Sinks = []string{"text", "vtext", "attr", "attr2", "bound", "vbind", "bou
 // and canary are still judged.
 var c01RawTextTags = map[string]bool{"noscript": true, "xmp": true, "iframe": true, "noembed": true, "noframes": true}
 var c01Constructs = []string{"plain", "if", "else", "for-root", "for-root2", "for-child", "for-tmpl", "for-obj",
-	"inc-static", "inc-bound", "inc-scope", "inc-troot", "inc-troot-req", "inc-troot-nested", "inc-troot-comment", "inc-troot-fm-blank", "inc-troot-ws", "inc-wrap-twice", "inc-wrap-loop", "slot-default", "slot-named", "slot-prop", "layout-var", "layout-page"}
+	"inc-static", "inc-bound", "inc-scope", "inc-troot", "inc-troot-req", "inc-troot-nested", "inc-troot-comment", "inc-troot-fm-blank", "inc-troot-ws", "inc-wrap-twice", "inc-wrap-loop", "slot-default", "slot-named", "slot-prop", "slot-twice", "slot-loop", "layout-var", "layout-page"}
 var c01Nbhs = []string{"none", "plain", "entity", "attrs"}
 
 // decoded neighbour text per neighbourhood (source form, parsed form)
@@ -219,6 +219,12 @@ func c01Build(sink, construct, nbh string) c01Tpl {
 		t.files = map[string]string{"page.vuego": wrap(`<template include="card.vuego"><template v-slot:body>` + mk("v", "") + `</template></template>`), "card.vuego": `<section class="card"><slot name="body">fb</slot></section>`}
 	case "slot-prop":
 		t.files = map[string]string{"page.vuego": wrap(`<template include="card.vuego"><template v-slot:body="sp">` + mk("sp.item", "") + `</template></template>`), "card.vuego": `<section class="card"><slot name="body" :item="v">fb</slot></section>`}
+	case "slot-twice": // the component fills the same named slot twice; the supplied template has static text before the sink
+		t.files = map[string]string{"page.vuego": wrap(`<template include="card.vuego"><template v-slot:body="sp">` + "\n   lead " + `<template v-if="sp.first">` + mk("sp.item", "") + `</template><i v-else>{{ sp.item }}</i>` + "\n" + `</template></template>`),
+			"card.vuego": `<section class="card"><div><slot name="body" :item="v" :first="t">fb</slot></div><div><slot name="body" :item="w" :first="f">fb</slot></div></section>`}
+	case "slot-loop": // the slot is filled once per item of [value, constant]
+		t.files = map[string]string{"page.vuego": wrap(`<template include="card.vuego"><template #body="sp">` + "\n   " + `<template v-if="sp.idx == 0">` + mk("sp.item", "") + `</template><i v-else>{{ sp.item }}</i>` + "\n" + `</template></template>`),
+			"card.vuego": `<section class="card"><div v-for="(i, it) in vw"><slot name="body" :item="it" :idx="i">fb</slot></div></section>`}
 	case "layout-var":
 		t.files = map[string]string{"page.vuego": "---\nlayout: lay\n---\n<p>page body</p>", "layouts/lay.vuego": `<main>` + wrap(mk("v", "")) + `<div v-html="content"></div></main>`}
 	case "layout-page":
